@@ -308,6 +308,10 @@ func (w *World) startServer(o *OptSpec, att *AttachSpec) {
 		w.attachSocket(alias, sock)
 		// listeners registered from here on see everything; events that raced with the registration may be missed
 		w.recx(Ev{Sess: alias, Kind: "app-attached"})
+		// what a careful application does: the session may have closed while the listeners were being registered
+		if sock.ReadyState() == "closed" && len(w.evs(alias, "close")) == 0 {
+			w.recx(Ev{Sess: alias, Kind: "close-before-attach", St: sockState(sock)})
+		}
 	})
 	srv.On("connection_error", func(a ...any) {
 		em, _ := a[0].(*types.ErrorMessage)
@@ -470,4 +474,14 @@ func sortedKeys[V any](m map[string]V) []string {
 	}
 	sort.Strings(k)
 	return k
+}
+
+// closesOf returns the session's close events; a session that closed while the
+// application was still registering its listeners has a close-before-attach
+// marker instead (unless the close event itself arrived after all).
+func (w *World) closesOf(a string) []Ev {
+	if c := w.evs(a, "close"); len(c) > 0 {
+		return c
+	}
+	return w.evs(a, "close-before-attach")
 }
